@@ -167,10 +167,34 @@ def par_lines(argv, lines, nproc, env, timeout=14400):
     return [x for r in res for x in r]
 
 
+_NOASLR = None
+
+
+def noaslr_prefix():
+    """mode D also switches address-space randomisation off (class objects hash by address, and
+    irast.PathId.__hash__ hashes its class), when setarch is available"""
+    global _NOASLR
+    if _NOASLR is None:
+        import shutil
+        import subprocess
+        _NOASLR = []
+        exe = shutil.which('setarch')
+        if exe:
+            try:
+                if subprocess.run([exe, '-R', 'true'], capture_output=True, timeout=20).returncode == 0:
+                    _NOASLR = [exe, '-R']
+            except (OSError, subprocess.SubprocessError):
+                pass
+    return _NOASLR
+
+
 def run_impl(lines, specpath, hashseed='0', nproc=NPROC, det=False):
     env = lib.impl_env(hashseed)
     env['C13_DET'] = '1' if det else '0'
-    res = par_lines([lib.PY, IMPL, lib.REPO, specpath], lines, nproc, env)
+    argv = [lib.PY, IMPL, lib.REPO, specpath]
+    if det:
+        argv = noaslr_prefix() + argv
+    res = par_lines(argv, lines, nproc, env)
     return [json.loads(x) for x in res]
 
 
@@ -485,7 +509,7 @@ def run(tier):
     seeds_probe = ('12345', '7') if thorough else ('12345',)
     cand = [i for i, r in enumerate(impl) if r.get('st') == 'ok']
     rnd = lib.rng('C13probe')
-    nprobe = len(cand) if thorough else min(len(cand), 160)
+    nprobe = len(cand) if thorough else min(len(cand), 110)
     probe = sorted(rnd.sample(cand, nprobe)) if cand else []
     d_idx = sorted(set(need_d) | set(probe))
     t0 = time.time()
